@@ -930,6 +930,11 @@ void DGXMLScanner::scanDocTypeDecl()
         //  by skipping forward tot he close angle and returning.
         if (!dtdScanner.scanInternalSubset())
         {
+            //  A parameter entity that was being expanded may still be on
+            //  the reader stack; its declaration dies with the DTD scanner
+            if (fReaderMgr.getReaderDepth() > 1)
+                fReaderMgr.cleanStackBackTo(1);
+
             fReaderMgr.skipPastChar(chCloseAngle);
             return;
         }
